@@ -13,7 +13,7 @@
 (* ASTs     <<"const", v>> <<"var", name>> <<"list", es>> <<"map", kvs>>   *)
 (*          <<"idx", e, i>> <<"bin", op, l, r>> <<"un", op, e>>            *)
 (*          <<"call", f, args, kws>> <<"mcall", recv, f, args, kws>>       *)
-(*          <<"attr", recv, name>> <<"kwd", text>>                         *)
+(*          <<"attr", recv, name>> <<"kwd", text>> <<"idx2", recv, key, default>> *)
 (* Scopes   env = sequence of frames (innermost first), a frame is a       *)
 (*          sequence of <<name, value>>; functions made by def() live in   *)
 (*          frames under the name "fn:<name>".                             *)
@@ -577,6 +577,17 @@ Eval(e, env, log) ==
                             IN IF k >= 1 /\ k <= Len(rf.v[2]) THEN R(rf.v[2][k], i.log) ELSE R(ErrV, i.log)
                        ELSE IF IsDict(rf.v) THEN LET v == DGet(rf.v[2], i.v) IN R(IF v[1] = "missing" THEN ErrV ELSE v, i.log)
                        ELSE R(ErrV, i.log)
+      \* mapping[key, default]: the value stored under the key (a stored null included), the default only when the key is absent
+      [] e[1] = "idx2" ->
+            LET r == Eval(e[2], env, log)
+            IN IF IsErr(r.v) THEN r
+               ELSE LET rf == Finish(r.v, r.log)
+                        i == Eval(e[3], env, rf.log)
+                        d == Eval(e[4], env, i.log)
+                    IN IF IsErr(rf.v) THEN rf ELSE IF IsErr(i.v) THEN i ELSE IF IsErr(d.v) THEN d
+                       ELSE IF ~IsDict(rf.v) THEN R(ErrV, d.log)
+                       ELSE IF ~Hashable(i.v) THEN R(UnH, d.log)
+                       ELSE LET v == DGet(rf.v[2], i.v) IN R(IF v[1] = "missing" THEN d.v ELSE v, d.log)
       [] e[1] = "attr" ->
             LET r == Eval(e[2], env, log)
             IN IF IsErr(r.v) THEN r ELSE LET rf == Finish(r.v, r.log) IN IF IsErr(rf.v) THEN rf ELSE R(Member2(rf.v, e[3]), rf.log)
